@@ -67,3 +67,7 @@ func GenuineID(name string) [32]byte { panic("vh stub") }
 
 // PanicMsg runs f and returns the panic message ("" if it did not panic).
 func PanicMsg(f func()) string { panic("vh stub") }
+
+// WriteEvents returns the number of stores to caller-owned (MarkCaller) or
+// package-level memory observed while TrackWrites was on.
+func WriteEvents() int { panic("vh stub") }
